@@ -106,10 +106,10 @@ def riscv_cases(ctx, classes):
 
 
 def check_riscv(ctx):
-    classes = ctx.driver("C08", ["classes"])[0][3:].split(",")
+    from pathlib import Path
+    classes = (Path(__file__).resolve().parent.parent / "translate" / "c07_classes.txt").read_text().split()
     # every encodable non-float class of the two riscv ISAs must be modelled
     I, C, R = rvlib.modules()
-    from ppci.arch.encoding import Instruction
     modelled = {rvlib.pyclass(n) for n in classes}
     for mod, isa in ((I, I.isa), (C, C.rvcisa)):
         for cls in isa.instructions:
@@ -126,7 +126,6 @@ def check_riscv(ctx):
             seen.add(cse); uniq.append(cse)
     cases = uniq
     reqs = [f"enc {n} {a} {b} {c} {imm}" for (n, a, b, c, imm) in cases]
-    model = ctx.driver("C08", reqs)
     reals = [real(*cse) for cse in cases]
     # property on the real bytes + real text, oracle = Lean decoder
     sp_reqs, sp_idx = [], []
@@ -134,7 +133,11 @@ def check_riscv(ctx):
         if rl[0] == "ok":
             sp_reqs.append(f"spell {rl[1].hex()} {rvlib.tokenise(rl[2])}")
             sp_idx.append(k)
-    spelled = dict(zip(sp_idx, ctx.driver("C08", sp_reqs))) if sp_reqs else {}
+    out = ctx.driver("C08", ["classes"] + reqs + sp_reqs)
+    if out[0][3:].split(",") != classes:
+        ctx.disagree("class-list", "translate/c07_classes.txt", classes, out[0][3:].split(","))
+    model = out[1:1 + len(reqs)]
+    spelled = dict(zip(sp_idx, out[1 + len(reqs):]))
     for k, (cse, rl, m) in enumerate(zip(cases, reals, model)):
         name = cse[0]
         ctx.count("eval_riscv_enc")
